@@ -159,6 +159,19 @@ fn check_chain(ctx: &Ctx, rt: &tokio::runtime::Runtime, fac: &versatiles_pipelin
 						}
 					}
 				}
+				// lookups and the stream of one filtered source agree with each other - also on tiles inside the rounding
+				// band of a geographic edge, where the oracle above leaves either answer open
+				if b.count_tiles() <= 1024 {
+					for c in b.iter_coords() {
+						let k = (c.z, c.x, c.y);
+						if let Ok(Ok(g)) = catch(|| rt.block_on(src.lookup(k))) {
+							if g.is_some() != seen.contains(&k) {
+								ctx.violation(&format!("{class}: lookup and stream of the filtered source disagree"), &format!("{vpl}: tile {k:?}: lookup {}, stream over {b:?} {}", if g.is_some() { "returns it" } else { "returns nothing" }, if seen.contains(&k) { "delivers it" } else { "does not" }), case.clone());
+								break;
+							}
+						}
+					}
+				}
 				let cands: Vec<Key> = match tiles {
 					Some(t) => t.keys().copied().filter(|k| k.0 == b.level && k.1 >= b.x_min && k.1 <= b.x_max && k.2 >= b.y_min && k.2 <= b.y_max).collect(),
 					None => b.iter_coords().map(|c| (c.z, c.x, c.y)).collect(),
